@@ -6,6 +6,7 @@ import (
 	"fmt"
 	"math"
 	"math/rand"
+	"sync"
 
 	modbus "github.com/aldas/go-modbus-client"
 	"github.com/aldas/go-modbus-client/packet"
@@ -90,6 +91,7 @@ func Spec() *mon.Spec {
 		Gen:         gen,
 		Run:         run,
 		Exhaustive:  true,
+		Race:        true,
 		SelfTest:    regref.SelfTest,
 	}
 }
@@ -111,6 +113,11 @@ func gen(g *mon.Gen) {
 			c.Ops = append(c.Ops, Op{V: rng.Intn(len(variants)), Addr: start - 1 + rng.Intn(regs+2)})
 		}
 		g.Emit(c)
+	}
+	// concurrent readers of one view: a temporary in-place rearrangement is a side effect too (built with -race)
+	for i := 0; i < g.Pick(40, 600); i++ {
+		regs := []int{4, 20, 125}[i%3]
+		g.Emit(&Case{Kind: "concurrent", Framing: i % 2, FC: []uint8{3, 4, 23}[i%3], Start: []int{0, 1000, 65536 - regs}[i%3], Regs: regs, Seed: rng.Int63()})
 	}
 	for i := 0; i < g.Pick(2000, 800000); i++ {
 		regs := 2 + rng.Intn(20)
@@ -243,7 +250,87 @@ func run(ci any, r *mon.Rec) {
 		r.Sample(map[string]any{"kind": "history", "ops": names(c.Ops), "regs": c.Regs, "start": c.Start})
 	case "extract":
 		runExtract(c, r, rng, payload)
+	case "concurrent":
+		runConcurrent(c, r, rng, payload)
 	}
+}
+
+// runConcurrent: several goroutines read overlapping registers of ONE view at the same time; every result must equal the
+// result of the same call made alone on a fresh copy, and the buffer must be unchanged afterwards.
+func runConcurrent(c *Case, r *mon.Rec, rng *rand.Rand, payload []byte) {
+	frame, view, _, err := parsed(c, payload)
+	if err != nil {
+		r.Violate(c, "cannot-parse", mon.Attrs{}, err.Error())
+		return
+	}
+	snap := append([]byte{}, frame...)
+	// call set: long strings over the whole window plus numeric reads inside it
+	type want struct {
+		op  Op
+		res string
+	}
+	var calls []want
+	strV := -1
+	for i, v := range variants {
+		if v.name == "String8" {
+			strV = i
+		}
+	}
+	for k := 0; k < 24; k++ {
+		op := Op{V: rng.Intn(len(variants)), Addr: c.Start + rng.Intn(c.Regs)}
+		if k%3 == 0 && strV >= 0 {
+			op.V = strV
+		}
+		_, fresh, _, _ := parsed(c, payload)
+		res, _ := callV(op.V, fresh, op.Addr)
+		calls = append(calls, want{op, res})
+	}
+	long := func(v *packet.Registers) (string, error) {
+		n := 2 * c.Regs
+		if n > 250 {
+			n = 250
+		}
+		return v.String(uint16(c.Start), uint8(n))
+	}
+	_, freshL, _, _ := parsed(c, payload)
+	longWant, longErr := long(freshL)
+	var wg sync.WaitGroup
+	var mu sync.Mutex
+	var bad []string
+	for g := 0; g < 8; g++ {
+		wg.Add(1)
+		go func(g int) {
+			defer wg.Done()
+			for round := 0; round < 300; round++ {
+				if g%2 == 0 {
+					got, e := long(view)
+					if (e == nil) != (longErr == nil) || got != longWant {
+						mu.Lock()
+						bad = append(bad, fmt.Sprintf("String over the whole window returned %q, alone on a fresh copy %q", got, longWant))
+						mu.Unlock()
+						return
+					}
+					continue
+				}
+				w := calls[(g*7+round)%len(calls)]
+				if got, _ := callV(w.op.V, view, w.op.Addr); got != w.res {
+					mu.Lock()
+					bad = append(bad, fmt.Sprintf("%s at %d returned %s while other goroutines were reading the same view, alone on a fresh copy %s", variants[w.op.V].name, w.op.Addr, got, w.res))
+					mu.Unlock()
+					return
+				}
+			}
+		}(g)
+	}
+	wg.Wait()
+	r.Eval(8 * 300)
+	if len(bad) > 0 {
+		r.Violate(c, "concurrent-readers-interfere", mon.Attrs{}, bad[0])
+	}
+	if !bytes.Equal(frame, snap) {
+		r.Violate(c, "payload-mutated", mon.Attrs{"accessor": "concurrent-readers"}, fmt.Sprintf("buffer changed: before % x after % x", snap[:min(len(snap), 40)], frame[:min(len(frame), 40)]))
+	}
+	r.Distinct(mon.Mix(9, uint64(c.Regs), uint64(c.Start), uint64(c.Seed)))
 }
 
 func randField(rng *rand.Rand, c *Case, i int) modbus.Field {
